@@ -27,8 +27,10 @@
    they are the order-free numbers of ordered adjacent S-S, S-I, I-I pairs.
    The last part of the file states the conservation / sign clauses for the 2-D and
    node-level right-hand sides (individual based, pair based, heterogeneous pairwise,
-   effective degree) over the hand-written models of Model/Rhs2D.v, which are tied to
-   the code by point evaluation on every run (harness/rhs2_lib.py). *)
+   effective degree) over the hand-written models of Model/Rhs2D.v; the very last part
+   (theorems C06_generated_...) proves that these models equal the definitions that
+   translate/rhs2d2v.py regenerates from EoN/analytic.py on every run (Gen/Rhs2.v);
+   both are also point-evaluated against the code (harness/rhs2_lib.py). *)
 From EoNV Require Import Prelude Graph Aux Vec IC Wrappers VecP ICP ICHand ICPair ICEd ICEbcm Rhs ICConserve Rhs2D Rhs2DP Rhs2 Rhs2GenP.
 
 (* ---------- non-vacuity of the hypotheses ---------- *)
